@@ -72,6 +72,66 @@ func simple(rule string, variant string, shards int) *plan {
 }
 
 func init() {
+	plans["C02"] = &plan{
+		rule:        "valid documents from the structured generator (sizes 2 B..8 MiB, depth to 100000, fan-out, duplicate/empty/equal-length keys, escapes, multi-byte UTF-8, long strings, three white-space layouts), boundary families (probe holding every token kind slid across index-buffer ordinals 1408k), documents needing 1..100+ index buffers, sizes 8192+-70, corpus files; each parsed under avx2/avx512 x copy/no-copy and read back through the AdvanceInto, Advance/NextElementBytes, ForEach/AdvanceIter, Object.Parse/Elements and Interface routes, compared with the reference tree. Distinct non-trivial = accepted documents with >= 3 values compared by >= 2 walkers, by content hash",
+		assumptions: commonAssumptions,
+		jobs: func(tier string) []*job {
+			return []*job{{variant: "plain", mode: "main", shards: 16, maxResume: 5}}
+		},
+		require: func(tier string, c, m map[string]int64, s map[string]map[string]struct{}) []string {
+			var out []string
+			out = append(out, need(c, "docs_async_path", 50)...)
+			if m["max_depth"] < 10000 {
+				out = append(out, "max_depth < 10000")
+			}
+			return out
+		},
+	}
+	plans["C03"] = &plan{
+		rule:        "number literals (all integers of 1..6/7 digits both signs, 2^63/2^64/10^19/10^20/2^53 +-3 with .0/e0/E+0/e-0 spellings, 17..23 digit integers, random doubles in 17-digit/shortest/upper-case/plain spellings, exact halfway decimals between adjacent doubles and their neighbours, subnormal and max-finite edges, every power of ten) batched 500 per document as array elements and as object values, under avx2/avx512 x copy/no-copy; Type/Int/Uint/FloatFlags compared with the math/big reference (cross-checked against strconv). Distinct non-trivial = distinct literal texts judged",
+		assumptions: commonAssumptions,
+		jobs: func(tier string) []*job {
+			return []*job{{variant: "plain", mode: "main", shards: 16, maxResume: 5}}
+		},
+		require: func(tier string, c, m map[string]int64, s map[string]map[string]struct{}) []string {
+			var out []string
+			out = append(out, need(c, "kind_int", 1000)...)
+			out = append(out, need(c, "kind_uint", 10)...)
+			out = append(out, need(c, "kind_float", 1000)...)
+			out = append(out, need(c, "kind_float_with_overflow_flag", 10)...)
+			return out
+		},
+	}
+	plans["C04"] = &plan{
+		rule:        "string-focused documents: every non-surrogate \\u code unit in both hex cases and surrogate pairs (batched 1024 per document, as values and as keys), every valid UTF-8 sequence of 1-3 bytes and 4-byte ones (sampled in quick), escapes of each kind at every position of short strings, length 0..4096 x start offset 0..63 layouts, escapes next to 32-byte window and 64-byte block edges, backslash runs 1..9 ending at offsets 56..72, strings ending 0..70 bytes before the end of an input that lies in an end-aligned guard-page mapping, random escape-heavy strings; under avx2/avx512 x copy/no-copy. Strings compared byte for byte with the reference unescape through two routes, tape length words compared with the reference lengths. Distinct non-trivial = distinct (content, guard placement) with >= 1 escape or length >= 32",
+		assumptions: commonAssumptions,
+		jobs: func(tier string) []*job {
+			return []*job{{variant: "plain", mode: "main", shards: 16, maxResume: 5}}
+		},
+		require: func(tier string, c, m map[string]int64, s map[string]map[string]struct{}) []string {
+			var out []string
+			out = append(out, need(c, "inputs_in_end_aligned_guard_mapping", 100)...)
+			out = append(out, need(c, "escapes_decoded", 100000)...)
+			return out
+		},
+	}
+	plans["C17"] = &plan{
+		rule:        "tapes from Parse and ParseND of the C02 document workload and NDJSON inputs (both kernels, both string modes), tapes after DeleteElems edits, and tapes rebuilt by Deserialize from serialized fresh and edited tapes (rotating compression modes); each checked by an independent one-pass invariant checker (validated at start on hand-corrupted tapes). Distinct non-trivial = tapes with >= 1 container below the root, by (document, mode) hash",
+		assumptions: append([]string{"the tape checker (harness/tapecheck) encodes the documented format correctly; it is self-tested on 13 hand-corrupted tapes at the start of every run"}, commonAssumptions...),
+		jobs: func(tier string) []*job {
+			return []*job{{variant: "plain", mode: "main", shards: 16, maxResume: 5}}
+		},
+		require: func(tier string, c, m map[string]int64, s map[string]map[string]struct{}) []string {
+			var out []string
+			out = append(out, need(c, "tapes_checked_parse", 1000)...)
+			out = append(out, need(c, "tapes_checked_parsend", 500)...)
+			out = append(out, need(c, "tapes_checked_deserialized", 200)...)
+			out = append(out, need(c, "tapes_checked_deserialized-edited", 100)...)
+			out = append(out, need(c, "nop_runs", 100)...)
+			out = append(out, need(c, "selftest_corruptions_detected", 13)...)
+			return out
+		},
+	}
 	plans["C01"] = &plan{
 		rule:        "inputs come from: exhaustive token-sequence and number-spelling enumerations, atom/string byte tables at block offsets, alignment carriers (byte offsets, index-buffer ordinals, 8 KiB threshold, large documents), corpus mutants, random bytes; each judged under avx2/avx512 x copy/no-copy. A case counts as distinct non-trivial if it was judged (class must-accept or must-reject, not 'either'), has >= 2 bytes after trimming, and its content hash was not seen before",
 		assumptions: commonAssumptions,
